@@ -55,7 +55,7 @@ def run_verification(pid, nproc=None):
     jobs = []
     for ident in api.ORDER:
         c = api.REGISTRY[ident]
-        if pid in c.props:
+        if pid in c.props and not (c.skip and not os.environ.get('PYVC_ALL')):
             if c.split and not c.trusted:
                 jobs += [('fn', ident, k) for k in range(len(c.split))]
             else:
